@@ -111,7 +111,7 @@ claimed = {
 addenda = {
  "C01": " Also at the wallet level: Wallet.CalculateBalance (symbolic minconf/maturity) and Wallet.ListUnspent on a real wallet with nine differently situated credits; universes with two conflicting unconfirmed spenders of one credit (fixed preamble).",
  "C02": " Further universes: a spender with two debits, two conflicting unconfirmed spenders with a third transaction conflicting on another input, descendants through non-credit outputs; PreviousPkScripts compared.",
- "C04": " Also: a taproot address (32-byte address id) and used flags before any import; root key neutered before conversion; after conversion no stored field may open under the master or the private crypto key (ideal AEAD); a private key imported into the reopened watching-only wallet must not reach the database; wallet-level Wallet.InitAccounts(watchOnly) migration; ImportPrivateKey racing Lock.",
+ "C04": " Also: a taproot address (32-byte address id) and used flags before any import; root key neutered before conversion; after conversion no stored field may open under the master or the private crypto key (ideal AEAD); a private key imported into the reopened watching-only wallet must not reach the database; wallet-level Wallet.InitAccounts(watchOnly) migration; ImportPrivateKey racing Lock; nothing the public crypto key opens contains a secret.",
  "C05": " Further states: account row reloaded while unlocked, imported watch-only account, imports into a key scope without loaded account, invalidated account cache, secret taproot script (accessor used once before Lock), address object derived by path and kept by the caller, failed Unlock, a 110-byte passphrase with one-byte-off guesses from locked and while unlocked. Histories on a LOCKED manager (addresses issued, account renamed, looked up or dropped from the cache) followed by Unlock with the current passphrase; Wallet.Unlock through the real walletLocker goroutine, a second request while unlocked or after Wallet.Lock.",
  "C06": " The second send also goes through FundPsbt without inputs (CreateSimpleTx and the serialising txCreator goroutine); an unconfirmed leased coin and a leased coin whose unconfirmed spend was abandoned are among the credits. A user lock placed on a coin that is temporarily hidden (leased / spent by an unconfirmed transaction), the locked outpoints listed, the temporary state ended: still ineligible.",
  "C07": " The caller's output slice (spare capacity) must stay untouched; a wallet-level entry feeds NewUnsignedTransaction from the wallet's real makeInputSource / constantInputSource with symbolic coin amounts. The dust clause is judged by the network's rule (btcd mempool threshold), independently of the wallet's txrules helper; the wallet's real change source for every default scope, a custom scope and imported accounts with schema overrides: script handed out == size told to the fee estimate.",
